@@ -68,3 +68,40 @@ def decode_other(key, fn):
         fn(_raw(key))
     except Exception:  # noqa
         pass
+
+
+def poison(kind):
+    """Failed-call probe: before the operation under test, a call of the same family is made that must FAIL half-way
+    (an out-of-range field discovered while packing). Whatever it leaves behind - a shared checksum register, a half
+    updated cache - must not influence the following, valid call. Exceptions of the probe itself are ignored."""
+    try:
+        if kind == "tc":
+            from spacepackets.ecss.tc import PusTc
+            t = PusTc(service=17, subservice=1, apid=0x55, seq_count=0x155, app_data=b"\xAA\x55", source_id=0)
+            t.pus_tc_sec_header.source_id = 0x10000        # does not fit 16 bits: pack / calc_crc fail after the header
+            for f in (t.calc_crc, t.to_space_packet, t.pack):
+                try:
+                    f()
+                except Exception:  # noqa
+                    pass
+        elif kind == "tm":
+            from spacepackets.ecss.tm import PusTm
+            t = PusTm(service=17, subservice=2, timestamp=bytes(7), source_data=b"\xAA\x55", apid=0x55, seq_count=0x155)
+            t.pus_tm_sec_header.dest_id = 0x10000
+            for f in (t.calc_crc, t.to_space_packet, t.pack):
+                try:
+                    f()
+                except Exception:  # noqa
+                    pass
+        elif kind == "pdu":
+            from .ops_cfdp import mk_pdu
+            cfg = {"crc": 1, "large": 0, "mode": 0, "segctrl": 0, "dir": 0, "src": [1], "dst": [2], "seq": [3]}
+            for k, p in (("eof", {"cond": 0, "checksum": [1, 2, 3, 4], "size": [1, 0, 0, 0, 0], "fault": []}),
+                         ("keepalive", {"progress": [1, 0, 0, 0, 0]}),
+                         ("nak", {"start": [0], "end": [1, 0, 0, 0, 0], "segs": []})):
+                try:
+                    mk_pdu(k, cfg, p)[0].pack()
+                except Exception:  # noqa
+                    pass
+    except Exception:  # noqa
+        pass
